@@ -216,3 +216,6 @@ func TestRoundTrip(t *testing.T) {
 	}
 	rtCheck.Rapid(t, hx.N(100000, 1000000), genCase)
 }
+
+// FuzzRoundTrip: coverage-guided search over the same generator (thorough tier).
+func FuzzRoundTrip(f *testing.F) { rtCheck.Fuzz(f, genCase) }
